@@ -1,6 +1,6 @@
 (* Single entry point used by the extracted binary and by `Eval vm_compute` case files. *)
 From Coq Require Import List NArith ZArith Bool.
-From Dznpy Require Import Base.PyStr Base.Sexp Run.RunText Run.RunScope.
+From Dznpy Require Import Base.PyStr Base.Sexp Run.RunText Run.RunScope Run.RunPorts.
 Import ListNotations.
 Open Scope Z_scope.
 
@@ -9,6 +9,7 @@ Definition run (x : sexp) : sexp :=
   let a := args x in
   if (100 <=? t) && (t <? 200) then run_text t a
   else if (200 <=? t) && (t <? 300) then run_scope t a
+  else if (300 <=? t) && (t <? 400) then run_ports t a
   else SL [SI (-1)].
 
 Definition run_all (l : list sexp) : list sexp := map run l.
